@@ -279,14 +279,39 @@ def one_schema(ctx, sch):
         try:
             res = run_sbeppc(ctx.exe, ctx.shim, wd2, sch['path'], sch['args'], fault=fault)
             tree = read_tree(os.path.join(wd2, 'out'))
-            return fault, res, tree
+            # recovery: the same command again, without a fault, into the directory the failed run left behind
+            rec = None
+            if res['rc'] != 0 or any(tree.get(p_) != c_ for p_, c_ in ref.items()):
+                r2 = run_sbeppc(ctx.exe, None, wd2, sch['path'], sch['args'])
+                t2 = read_tree(os.path.join(wd2, 'out'))
+                bad = [p_ for p_, c_ in ref.items() if t2.get(p_) != c_]
+                rec = {'rc': r2['rc'], 'bad': bad[:3], 'n_bad': len(bad), 'out': r2['out'][-300:],
+                       'sizes': {p_: [len(ref[p_]), (len(t2[p_]) if p_ in t2 else None), (len(tree[p_]) if p_ in tree else None)]
+                                 for p_ in bad[:3]}}
+            return fault, res, tree, rec
         finally:
             shutil.rmtree(wd2, ignore_errors=True)
 
     nofire = 0
     with concurrent.futures.ThreadPoolExecutor(max_workers=core.NPROC) as ex:
-        for fault, res, tree in ex.map(work, enumerate(faults), chunksize=4):
+        for fault, res, tree, rec in ex.map(work, enumerate(faults), chunksize=4):
             ctx.runs += 1
+            if rec is not None:
+                ctx.recovery_runs = getattr(ctx, 'recovery_runs', 0) + 1
+                ctx.files_compared += len(ref)
+                if rec['rc'] != 0 or rec['n_bad']:
+                    sig = ('recovery', fault['family'], fault['mode'])
+                    seen = ctx.__dict__.setdefault('recovery_sigs', {})
+                    seen[sig] = seen.get(sig, 0) + 1
+                    if seen[sig] == 1:
+                        case = {'what': 'rerun-after-failed-run-differs', 'family': fault['family'], 'mode': fault['mode'],
+                                'errno': fault['errno'], 'k': fault['k'], 'schema': sch['name']}
+                        chk.report_failure({'kind': 'impl≠spec',
+                                            'spec': 'compiling the same schema again into an already populated directory '
+                                                    '(here: the directory a failed run left behind) exits 0 with byte-identical files',
+                                            'case': case, 'schema': sch['name'],
+                                            'schema_xml': open(sch['path'], encoding='utf-8').read()[:20000],
+                                            'args': sch['args'], 'fault_of_first_run': fault, 'observed': rec}, case)
             if res['fired']:
                 key = '%s/%s/%s' % (fault['family'], fault['mode'], fault['errno'])
                 ctx.fired_hist[key] = ctx.fired_hist.get(key, 0) + res['fired']
@@ -330,6 +355,41 @@ def determinism(ctx, sch, ref):
             t.get(rel_stale) != b'// not generated\n':
         problems.append({'what': 'stale-directory-differs', 'rc': b1['rc'], 'extra': sorted(extra)[:5],
                          'different': [p for p in ref if t.get(p) != ref[p]][:5]})
+    # b2. populated with every class of pre-existing content: empty, strict prefixes, same length with one byte
+    #     different, identical; the run must rewrite every file (call-level model: open(O_TRUNC) + write + close
+    #     per file on EVERY run) and leave the reference bytes
+    def mutate(c, cls):
+        if cls == 'empty':
+            return b''
+        if cls == 'prefix-half':
+            return c[: len(c) // 2]
+        if cls == 'prefix-minus-1':
+            return c[:-1]
+        if cls == 'last-byte':
+            return c[:-1] + bytes([(c[-1] ^ 0x20) if c else 0x41])
+        if cls == 'first-byte':
+            return bytes([c[0] ^ 0x01]) + c[1:] if c else b'x'
+        return c
+    classes = ['empty', 'prefix-half', 'prefix-minus-1', 'last-byte', 'first-byte', 'identical']
+    ref_counts = None
+    for cls in classes:
+        wd = ctx.workdir()
+        for p, c in ref.items():
+            q = os.path.join(wd, 'out', p)
+            os.makedirs(os.path.dirname(q), exist_ok=True)
+            open(q, 'wb').write(mutate(c, cls))
+        r = run_sbeppc(ctx.exe, ctx.shim, wd, sch['path'], sch['args'], fault={})
+        t = read_tree(os.path.join(wd, 'out'))
+        if r['rc'] != 0 or t != ref:
+            problems.append({'what': 'populated-directory-differs', 'content_class': cls, 'rc': r['rc'],
+                             'different': [p for p in set(t) | set(ref) if t.get(p) != ref.get(p)][:5]})
+        cnt = {k: v for k, v in (r['counts'] or {}).items() if k in ('open', 'write', 'close')}
+        if cnt.get('open') != len(ref) or cnt.get('close', 0) < len(ref) or \
+                cnt.get('write', 0) < len([c for c in ref.values() if c]):
+            ctx.model_mismatch.append({'case': {'what': 'rerun-call-counts', 'content_class': cls, 'schema': sch['name']},
+                                       'model': 'every run opens, writes and closes every file', 'impl': cnt,
+                                       'files': len(ref), 'impl_ok_by_spec': r['rc'] == 0 and t == ref})
+    ctx.files_compared += len(ref) * len(classes)
     # c. different environment / cwd depth / absolute paths; ASLR stays on
     variants = []
     for i in range(4 if chk.tier == 'thorough' else 2):
@@ -347,6 +407,8 @@ def determinism(ctx, sch, ref):
     ctx.files_compared += len(ref) * (3 + len(variants))
     for pr in problems:
         case = {'what': pr['what'], 'schema': sch['name']}
+        if 'content_class' in pr:
+            case['content_class'] = pr['content_class']
         chk.report_failure({'kind': 'impl≠spec', 'spec': 'byte-identical files on every run', 'case': case,
                             'schema': sch['name'], 'schema_xml': open(sch['path'], encoding='utf-8').read()[:20000],
                             'args': sch['args'], 'observed': pr}, case)
@@ -424,6 +486,7 @@ def run(chk):
         chk.cov['verdicts_by_family_mode'] = ctx.verdicts
         chk.cov['model_mismatches'] = {'impl_ok_by_spec': len(wrong_model), 'impl_violates_spec_differently': len(other_mismatch)}
         chk.cov['files_byte_compared'] = ctx.files_compared
+        chk.cov['recovery_runs_after_failed_runs'] = getattr(ctx, 'recovery_runs', 0)
         chk.cov['schemas'] = per_schema
         chk.cov['aslr'] = aslr
         chk.cov['fsync_calls'] = sum(i['counts'].get('fsync', 0) for i in per_schema.values())
